@@ -351,9 +351,22 @@ func registerStd(P *Program) {
 			return nil
 		})
 	}
-	for _, n := range []string{"(*sync.WaitGroup).Add", "(*sync.WaitGroup).Done", "(*sync.WaitGroup).Wait"} {
-		r(n, nop)
-	}
+	r("(*sync.WaitGroup).Add", func(in *Interp, caller *frame, fn *ssa.Function, args []Value) Value {
+		d, ok := args[1].(*Term)
+		if !ok || !d.IsConst() {
+			panic(unsupported("WaitGroup.Add with a symbolic delta"))
+		}
+		in.wgAdd(args[0].(Ptr), int64(d.u))
+		return nil
+	})
+	r("(*sync.WaitGroup).Done", func(in *Interp, caller *frame, fn *ssa.Function, args []Value) Value {
+		in.wgAdd(args[0].(Ptr), -1)
+		return nil
+	})
+	r("(*sync.WaitGroup).Wait", func(in *Interp, caller *frame, fn *ssa.Function, args []Value) Value {
+		in.wgWait(args[0].(Ptr))
+		return nil
+	})
 	r("(*sync.Mutex).TryLock", func(in *Interp, caller *frame, fn *ssa.Function, args []Value) Value { return in.ts.True() })
 	r("(*sync.Once).Do", func(in *Interp, caller *frame, fn *ssa.Function, args []Value) Value {
 		p := args[0].(Ptr)
@@ -641,9 +654,33 @@ func registerStd(P *Program) {
 		return nil
 	})
 	r("sort.Strings", func(in *Interp, caller *frame, fn *ssa.Function, args []Value) Value {
-		in.sortSlice(args[0].(SliceV), func(a, b Value) bool {
-			return mustStr(a, "sort.Strings") < mustStr(b, "sort.Strings")
-		})
+		sl := args[0].(SliceV)
+		allConst := true
+		for _, e := range sl.A {
+			if t, ok := e.(*Term); !ok || !t.IsConst() {
+				allConst = false
+			}
+		}
+		if allConst {
+			in.sortSlice(sl, func(a, b Value) bool {
+				return mustStr(a, "sort.Strings") < mustStr(b, "sort.Strings")
+			})
+			return nil
+		}
+		// symbolic strings: insertion sort forking on the bytewise order (ts.StrLt)
+		for i := 1; i < len(sl.A); i++ {
+			for j := i; j > 0; j-- {
+				a, ok1 := sl.A[j].(*Term)
+				b, ok2 := sl.A[j-1].(*Term)
+				if !ok1 || !ok2 {
+					panic(unsupported("sort.Strings: element is not a string term"))
+				}
+				if !in.branch(nil, nil, in.ts.StrLt(a, b)) {
+					break
+				}
+				sl.A[j], sl.A[j-1] = sl.A[j-1], sl.A[j]
+			}
+		}
 		return nil
 	})
 	sortSliceFn := func(in *Interp, caller *frame, fn *ssa.Function, args []Value) Value {
